@@ -748,12 +748,13 @@ def run_case(cfg, backend):
         out = 'hung'
     except Spin:
         out = 'hung'                    # busy loop without progress
-        loop.max_iterations = None
+        loop.iterations = 0
+        loop.max_iterations = 2000      # bounded clean-up
     try:
         if 'acc' in result:
             result['acc'].close()
         loop.run_until_idle()
-    except Exception:                   # pylint: disable=broad-except
+    except (Exception, Spin):           # pylint: disable=broad-except
         pass
     lconn = result.get('lconn')
     if result.get('runaway') or getattr(lconn, 'runaway', False):
